@@ -133,7 +133,9 @@ Definition isotope_index (r : registry) : index isotope := build_index isotope_k
 (* ------------------------------------------------------------------------------------------ *)
 (* lookup_element (l.175-197), lookup_isotope (l.200-235)                                       *)
 (* ------------------------------------------------------------------------------------------ *)
-Inductive value := VStr (s : string) | VInt (z : Z) | VSpecies (o : species).
+(* VOther s: any other Python object (bool, float, numpy scalar, bytes, None, tuple, instance of a
+   Python subclass ...) whose str() is s; the code only ever looks at str(v) of such an argument *)
+Inductive value := VStr (s : string) | VInt (z : Z) | VSpecies (o : species) | VOther (s : string).
 Inductive result (A : Type) := Ok (a : A) | ErrValue.
 Arguments Ok {A} a.
 Arguments ErrValue {A}.
@@ -145,6 +147,7 @@ Definition py_str (v : value) : string :=
   | VInt z => zstr z
   | VSpecies (SE e) => sapp "<Element: " (sapp (e_name e) ">")
   | VSpecies (SI i) => sapp "<Isotope: " (sapp (i_name i) ">")
+  | VOther s => s
   end.
 
 Definition lookup_element_ix (ixe : index element) (v : value) : result element :=
@@ -157,21 +160,25 @@ Definition lookup_element_ix (ixe : index element) (v : value) : result element 
 Definition truthy (number : option Z) : option Z :=
   match number with Some n => if Z.eqb n 0 then None else Some n | None => None end.
 
-Definition lookup_isotope_ix (ixe : index element) (ixi : index isotope) (v : value) (number : option Z)
+(* [num] = Some s: `number` is truthy and str(number) = s; None: `number` is None / 0 / '' / [] ... *)
+Definition lookup_isotope_core (ixe : index element) (ixi : index isotope) (v : value) (num : option string)
   : result isotope :=
   match v with
   | VSpecies (SI i) => Ok i                                   (* type(v) is Isotope *)
   | _ =>
-    match truthy number with
-    | Some n =>
+    match num with
+    | Some sn =>
         match lookup_element_ix ixe v with
         | ErrValue => ErrValue
-        | Ok el => match idx_get ixi (lower (sapp (e_symbol el) (zstr n))) with
+        | Ok el => match idx_get ixi (lower (sapp (e_symbol el) sn)) with
                    | Some i => Ok i | None => ErrValue end
         end
     | None => match idx_get ixi (lower (py_str v)) with Some i => Ok i | None => ErrValue end
     end
   end.
+
+Definition lookup_isotope_ix (ixe : index element) (ixi : index isotope) (v : value) (number : option Z)
+  : result isotope := lookup_isotope_core ixe ixi v (option_map zstr (truthy number)).
 
 Definition lookup_element (r : registry) (v : value) : result element :=
   lookup_element_ix (element_index r) v.
@@ -249,31 +256,42 @@ Fixpoint hkey_eqb (a b : list hatom) : bool :=
 (* ------------------------------------------------------------------------------------------ *)
 (* Line (line.pyx l.49-82) and the repository helpers (utility.py)                              *)
 (* ------------------------------------------------------------------------------------------ *)
+(* a transition is a tuple (any length; two entries in practice) of ints and strings *)
 Inductive tval := TInt (z : Z) | TStr (s : string).
-Record line := mkLine { l_element : species; l_charge : Z; l_upper : tval; l_lower : tval }.
+Record line := mkLine { l_element : species; l_charge : Z; l_transition : list tval }.
 
-Definition new_line (o : species) (charge : Z) (u l : tval) : result line :=
+Definition new_line (o : species) (charge : Z) (tr : list tval) : result line :=
   if Z.gtb charge (species_Z o - 1) then ErrValue
   else if Z.ltb charge 0 then ErrValue
-  else Ok (mkLine o charge u l).
+  else Ok (mkLine o charge tr).
 
 Definition tval_eqb (a b : tval) : bool :=
   match a, b with TInt x, TInt y => Z.eqb x y | TStr s, TStr t => String.eqb s t | _, _ => false end.
+Fixpoint tlist_eqb (a b : list tval) : bool :=
+  match a, b with
+  | [], [] => true
+  | x :: s, y :: t => (tval_eqb x y && tlist_eqb s t)%bool
+  | _, _ => false
+  end.
 
 Definition line_eq (a b : line) : bool :=
   (py_eq (l_element a) (l_element b) && Z.eqb (l_charge a) (l_charge b)
-   && (tval_eqb (l_upper a) (l_upper b) && tval_eqb (l_lower a) (l_lower b)))%bool.
+   && tlist_eqb (l_transition a) (l_transition b))%bool.
 Definition line_ne (a b : line) : bool :=
   (py_ne (l_element a) (l_element b) || negb (Z.eqb (l_charge a) (l_charge b))
-   || negb (tval_eqb (l_upper a) (l_upper b) && tval_eqb (l_lower a) (l_lower b)))%bool.
+   || negb (tlist_eqb (l_transition a) (l_transition b)))%bool.
 (* hash((element, charge, transition)) is a function of hash(element), charge, transition *)
 Definition line_key_eqb (a b : line) : bool :=
   (hkey_eqb (hash_key (l_element a)) (hash_key (l_element b)) && Z.eqb (l_charge a) (l_charge b)
-   && (tval_eqb (l_upper a) (l_upper b) && tval_eqb (l_lower a) (l_lower b)))%bool.
+   && tlist_eqb (l_transition a) (l_transition b))%bool.
 
 Definition tval_str (t : tval) : string := match t with TInt z => zstr z | TStr s => s end.
-Definition encode_transition (u l : tval) : string :=
-  sapp (lower (tval_str u)) (sapp " -> " (lower (tval_str l))).
+(* `upper, lower = transition` raises ValueError unless there are exactly two entries *)
+Definition encode_transition (tr : list tval) : result string :=
+  match tr with
+  | [u; l] => Ok (sapp (lower (tval_str u)) (sapp " -> " (lower (tval_str l))))
+  | _ => ErrValue
+  end.
 Definition valid_charge (o : species) (charge : Z) : bool := Z.leb charge (species_Z o).
 
 (* ------------------------------------------------------------------------------------------ *)
@@ -289,6 +307,12 @@ Section Dict.
     match d with
     | [] => [(k, v)]
     | (k', x) :: t => if slot_match k' k then (k', v) :: t else (k', x) :: dict_set t k v
+    end.
+  (* d.pop(k, None): removes the slot that matches, if any (no theorem is stated about deletion) *)
+  Fixpoint dict_del (d : list (K * V)) (k : K) : list (K * V) :=
+    match d with
+    | [] => []
+    | (k', x) :: t => if slot_match k' k then t else (k', x) :: dict_del t k
     end.
   Definition dict_run (ops : list (K * V)) : list (K * V) := fold_left (fun d kv => dict_set d (fst kv) (snd kv)) ops [].
 End Dict.
